@@ -26,6 +26,14 @@ Let b0 : N := f_next f0.
 
 Hypothesis W0 : wf f0.
 
+(* ReceiveOpt.Filter: what it does to the stat copy keeps type bits and link name; what it
+   rejects it rejects with everything below *)
+Variable fl : rfilter.
+Hypothesis Hmap_mode : forall s, st_mode (f_map fl s) = st_mode s.
+Hypothesis Hmap_link : forall s, st_linkname (f_map fl s) = st_linkname s.
+Hypothesis Hclosed : forall p q, ok_path p = true -> ok_path q = true ->
+  f_rej fl p = true -> is_prefix (comps p) (comps q) -> f_rej fl q = true.
+
 (* the temporary names the disk writer may use *)
 Definition tmpname (t : bytes) : Prop := t = default_tmp \/ In t tmps0.
 Hypothesis tmp_ok : forall t, tmpname t -> okname t.
@@ -54,8 +62,9 @@ Definition pipe_ok (f : fs) (pp : pipe) : Prop :=
 
 Record alive_inv (st : rstate) : Prop := {
   a_tmpfree : forall j t, reach (r_fs st) j -> tmpname t -> blookup t (ents (r_fs st) j) = None;
-  a_stack : forall d l, In (d, l) (r_vstk st) -> safe (r_fs st) D (pcomps d);
-  a_seen : forall q, In q (r_seen st) -> safe (r_fs st) D (comps q)
+  (* what the filter rejects never reaches the disk: nothing is claimed about it *)
+  a_stack : forall d l, In (d, l) (r_vstk st) -> f_rej fl d = false -> safe (r_fs st) D (pcomps d);
+  a_seen : forall q, In q (r_seen st) -> f_rej fl q = false -> safe (r_fs st) D (comps q)
 }.
 
 Definition accpaths (acc : list vitem) : list bytes := map vpath acc.
@@ -106,8 +115,8 @@ Proof.
   intros W (E1 & E2 & E3) S [A1 A2 A3]. constructor.
   - intros j t Rj Ht. pose proof (quiet_reach D b _ _ j W S Rj) as Rj0.
     rewrite (quiet_blookup D b _ _ j t S (reach_lt D _ j W Rj0)). apply A1; auto.
-  - intros d l Hin. rewrite E1 in Hin. apply (quiet_safe D b (r_fs st)); auto. apply (A2 d l Hin).
-  - intros q Hin. rewrite E2 in Hin. apply (quiet_safe D b (r_fs st)); auto.
+  - intros d l Hin Hr. rewrite E1 in Hin. apply (quiet_safe D b (r_fs st)); auto. apply (A2 d l Hin Hr).
+  - intros q Hin Hr. rewrite E2 in Hin. apply (quiet_safe D b (r_fs st)); auto.
 Qed.
 
 
@@ -401,13 +410,51 @@ Definition change_pre (kind : N) (st : rstate) (p : bytes) (s : stat) (acc : lis
   /\ (forall id pp, In (id, pp) (r_pipes st) -> ~ is_prefix (comps p) (comps (pp_path pp)))
   /\ (N.eqb kind 2 = false -> In p (accpaths acc)).
 
-Definition change_post (kind : N) (p : bytes) (s : stat) (st st' : rstate) : Prop :=
+(* the call itself, once the filter has let the change pass *)
+Definition apply_change0 (c : ctx) (idx : nat) (kind : N) (p : bytes) (s : stat) (st : rstate) : rstate :=
+  if negb (live st) then st else
+  match spend st with
+  | None => set_out st Halted
+  | Some st1 =>
+    let tmp := hd default_tmp (r_tmps st1) in
+    let st2 := set_tmps st1 (tl (r_tmps st1)) (r_dirtimes st1) in
+    match dw_handle c (r_fs st2) tmp kind p s with
+    | (f', DwErr) => set_dead (upd st2 f') idx
+    | (f', DwOk async newdir) =>
+      let st3 := upd st2 f' in
+      let st4 := if newdir then set_tmps st3 (r_tmps st3) (bset p (st_mtime s) (r_dirtimes st3)) else st3 in
+      if async then
+        match blookup p (r_files st4) with
+        | None => set_maps st4 (r_files st4) (r_pipes st4) true
+        | Some id =>
+          set_maps st4 (bremove p (r_files st4))
+                   (aset id {| pp_path := p; pp_stat := s; pp_off := O; pp_fd := None; pp_closed := false |} (r_pipes st4))
+                   (r_asyncerr st4)
+        end
+      else st4
+    end
+  end.
+
+Lemma apply_change_unfold idx kind p s st :
+  apply_change fl c idx kind p s st =
+  if f_rej fl p then st else apply_change0 c idx kind p (if N.eqb kind 2 then s else f_map fl s) st.
+Proof. reflexivity. Qed.
+
+Definition change_post0 (kind : N) (p : bytes) (s : stat) (st st' : rstate) : Prop :=
   live st' = true ->
     live st = true
     /\ (forall j t, reach (r_fs st') j -> tmpname t -> blookup t (ents (r_fs st') j) = None)
     /\ (forall cs, ~ is_prefix (comps p) cs -> (forall t, tmpname t -> ~ In t cs) ->
            (safe (r_fs st) D cs -> safe (r_fs st') D cs) /\ rwalk (r_fs st') D cs = rwalk (r_fs st) D cs)
     /\ (kind <> 2 -> solid s = true -> safe (r_fs st') D (comps p)).
+
+Definition change_post (kind : N) (p : bytes) (s : stat) (st st' : rstate) : Prop :=
+  live st' = true ->
+    live st = true
+    /\ (forall j t, reach (r_fs st') j -> tmpname t -> blookup t (ents (r_fs st') j) = None)
+    /\ (forall cs, ~ is_prefix (comps p) cs -> (forall t, tmpname t -> ~ In t cs) ->
+           (safe (r_fs st) D cs -> safe (r_fs st') D cs) /\ rwalk (r_fs st') D cs = rwalk (r_fs st) D cs)
+    /\ (kind <> 2 -> solid s = true -> f_rej fl p = false -> safe (r_fs st') D (comps p)).
 
 Definition same_diff (st st' : rstate) : Prop :=
   r_vstk st' = r_vstk st /\ r_seen st' = r_seen st /\ r_old st' = r_old st /\ r_rmdir st' = r_rmdir st
@@ -437,12 +484,12 @@ Proof.
   - destruct (F i H). lia.
 Qed.
 
-Lemma apply_change_inv idx kind p s st acc :
+Lemma apply_change_inv0 idx kind p s st acc :
   GBase st acc -> (live st = true -> change_pre kind st p s acc) ->
-  let st' := apply_change c idx kind p s st in
-  GBase st' acc /\ same_diff st st' /\ change_post kind p s st st'.
+  let st' := apply_change0 c idx kind p s st in
+  GBase st' acc /\ same_diff st st' /\ change_post0 kind p s st st'.
 Proof.
-  intros G Hpre. cbv zeta. unfold apply_change.
+  intros G Hpre. cbv zeta. unfold apply_change0.
   destruct (live st) eqn:L; cbn [negb].
   2:{ split; auto. split; [repeat split|]. intros L'. congruence. }
   destruct (Hpre eq_refl) as (Hok & Hcl & Hsafe & Hfree & Hlink & Hpipes & Hacc).
@@ -505,7 +552,7 @@ Proof.
     assert (Hkept : forall cs, ~ is_prefix (comps p) cs -> (forall t, tmpname t -> ~ In t cs) ->
                       (safe (r_fs st) D cs -> safe f' D cs) /\ rwalk f' D cs = rwalk (r_fs st) D cs).
     { intros cs H1 H2. apply (K1 cs (off_of tmp pre bn cs ltac:(rewrite <- Ecs; exact H1) (H2 tmp Htn))). }
-    assert (Hpost : forall st', r_fs st' = f' -> live st' = true -> change_post kind p s st st').
+    assert (Hpost : forall st', r_fs st' = f' -> live st' = true -> change_post0 kind p s st st').
     { intros st' E1 E2 _. rewrite E1. split; [exact L|]. split; [exact Halive|]. split; [exact Hkept|exact Hsolidsafe]. }
     set (st4 := if newdir
                 then set_tmps (upd (set_tmps st1 (tl (r_tmps st1)) (r_dirtimes st1)) f')
@@ -551,6 +598,34 @@ Proof.
       * apply Hpost; auto.
 Qed.
 
+
+Lemma map_branch s : hardlink_branch (f_map fl s) = hardlink_branch s /\ solid (f_map fl s) = solid s.
+Proof. unfold hardlink_branch, solid. rewrite Hmap_mode, Hmap_link. split; reflexivity. Qed.
+
+(* with the filter in front: a rejected change is no change *)
+Lemma apply_change_inv idx kind p s st acc :
+  GBase st acc ->
+  (live st = true -> f_rej fl p = false -> change_pre kind st p s acc) ->
+  (live st = true -> forall j t, reach (r_fs st) j -> tmpname t -> blookup t (ents (r_fs st) j) = None) ->
+  let st' := apply_change fl c idx kind p s st in
+  GBase st' acc /\ same_diff st st' /\ change_post kind p s st st'.
+Proof.
+  intros G Hpre Hfree0. cbv zeta. rewrite apply_change_unfold. destruct (f_rej fl p) eqn:Er.
+  - split; [exact G|]. split; [repeat split|]. intros L. split; [exact L|]. split; [exact (Hfree0 L)|]. split.
+    + intros cs _ _. split; auto.
+    + intros _ _ H. congruence.
+  - set (s' := if N.eqb kind 2 then s else f_map fl s).
+    assert (Hs' : hardlink_branch s' = hardlink_branch s /\ solid s' = solid s /\ st_linkname s' = st_linkname s).
+    { unfold s'. destruct (N.eqb kind 2); [repeat split|]. destruct (map_branch s) as [A B]. rewrite Hmap_link. auto. }
+    destruct Hs' as (Hb1 & Hb2 & Hb3).
+    assert (Hpre' : live st = true -> change_pre kind st p s' acc).
+    { intros L. destruct (Hpre L eq_refl) as (H1 & H2 & H3 & H4 & H5 & H6 & H7).
+      unfold change_pre. rewrite Hb1, Hb3. repeat split; auto; apply H5; auto. }
+    destruct (apply_change_inv0 idx kind p s' st acc G Hpre') as (G' & Sd & Hpost).
+    split; [exact G'|]. split; [exact Sd|].
+    intros L. destruct (Hpost L) as (P0 & P1 & P2 & P3). split; [exact P0|]. split; [exact P1|]. split; [exact P2|].
+    intros Hk Hsol _. apply P3; auto. rewrite Hb2. exact Hsol.
+Qed.
 
 (* ---------------- the validator's stack after an accepted entry ---------------- *)
 Lemma cvstep_shape stk it stk' : chain stk -> cvstep stk it = Some stk' ->
@@ -692,94 +767,33 @@ Proof.
         split; [auto|]. intros _. apply mem_bytes_In. exact Em.
 Qed.
 
-Lemma recv_stat_inv idx s st acc :
-  MInv st acc -> clean_path (st_path s) -> exists acc', MInv (recv_stat c idx s st) acc'.
+(* a directory on the validator's stack lies above every later path: accepted with it *)
+Lemma dir_accepted vstk ds l p : R vstk -> In (ds, l) vstk -> ok_path p = true ->
+  is_prefix (pcomps ds) (comps p) -> f_rej fl p = false -> pcomps ds = [] \/ f_rej fl ds = false.
 Proof.
-  intros [[G A] Hold] Hcl. unfold recv_stat.
-  set (files := if mode_is_regular (st_mode s) then bset (st_path s) (r_next st) (r_files st) else r_files st).
-  set (it := item_of s).
-  destruct (vstep (r_vstk st) it) as [v'|] eqn:Ev.
-  2:{ exists acc. apply (MInv_stop st); [|simpl; exact Hold|discriminate].
-      apply (GBase_quiet st _ acc b0 G); try (unfold b0; lia); simpl.
-      - apply step_same; [apply (g_wf st acc G)|apply (g_next st acc G)].
-      - repeat split.
-      - apply G. }
-  pose proof (vstep_ok_path _ _ _ Ev) as Hok. change (vpath it) with (st_path s) in Hok.
-  pose proof (vstep_refines (r_vstk st) it (g_R st acc G) Hok) as Hr. rewrite Ev in Hr. destruct Hr as [Hcv HR'].
-  destruct (cvstep_sound _ _ _ _ (g_vinv st acc G) (okitem_names it Hok) Hcv) as [Hspec HI'].
-  change [citem_of it] with (map citem_of [it]) in HI'. rewrite <- map_app in HI'.
-  destruct (cvstep_shape _ _ _ (inv_chain _ _ (g_vinv st acc G)) Hcv) as [Hparent Hshape].
-  cbn [ipath citem_of it item_of vpath] in Hparent, Hshape.
-  exists (acc ++ [it]).
-  assert (Hbase : forall st', r_fs st' = r_fs st -> r_vstk st' = v' -> r_pipes st' = r_pipes st -> r_tmps st' = r_tmps st ->
-             (forall q, In q (r_seen st') -> In q (r_seen st) \/ q = st_path s) -> GBase st' (acc ++ [it])).
-  { intros st' E1 E2 E3 E4 E5. apply (GBase_ext st st' acc it v'); auto. }
-  destruct (hl_step (r_seen st) s) as [seen'|] eqn:Eh.
-  2:{ apply (MInv_stop st); [|simpl; exact Hold|discriminate]. apply Hbase; simpl; auto. }
-  destruct (hl_step_seen _ _ _ Eh) as [Hseen' Hlinkseen].
-  set (st1 := set_valid (set_valid st (r_vstk st) (r_seen st) files (r_next st + 1)) v' seen' files (r_next st + 1)).
-  assert (G1 : GBase st1 (acc ++ [it])).
-  { apply Hbase; simpl; auto. intros q Hq. destruct (Hseen' q Hq) as [H|[H _]]; auto. }
-  destruct (is_dead st1 && negb (r_closed st1)); [apply (MInv_stop st1); [exact G1|simpl; exact Hold|discriminate]|].
-  destruct (r_closed st1); [apply (MInv_stop st1); [exact G1|simpl; exact Hold|discriminate]|].
-  assert (Eold : r_old st1 = []) by (simpl; exact Hold). rewrite Eold. cbn [diff_feed].
-  set (st2 := set_diff st1 [] []).
-  assert (G2 : GBase st2 (acc ++ [it])).
-  { apply (GBase_quiet st1 st2 _ b0 G1); try (unfold b0; lia); simpl.
-    - apply step_same; [apply (g_wf st acc G)|apply (g_next st acc G)].
-    - repeat split.
-    - apply G1. }
-  assert (Ecs : comps (st_path s) = removelast (comps (st_path s)) ++ [last (comps (st_path s)) []]) by (apply split_comps; auto).
-  assert (Hpre : live st2 = true -> change_pre 0 st2 (st_path s) s (acc ++ [it])).
-  { intros L. assert (L0 : live st = true) by exact L. destruct (A L0) as [A1 A2 A3].
-    unfold change_pre. cbn [r_fs st2 st1 set_diff set_valid r_pipes].
-    split; [exact Hok|]. split; [exact Hcl|]. split.
-    - destruct Hparent as [l Hl]. apply In_map_ce in Hl. destruct Hl as (ds & Hin & Eds).
-      rewrite <- Eds. apply (A2 ds l Hin).
-    - split; [exact A1|]. split.
-      + intros _ Hhb. pose proof (Hlinkseen Hhb) as Hin.
-        destruct (In_accpaths_clean acc _ (g_acc st acc G) (g_seen st acc G _ Hin)) as [Hokl _].
-        split; auto. pose proof (A3 _ Hin) as Hs. rewrite (split_comps _ Hokl) in Hs. apply safe_prefix in Hs. exact Hs.
-      + split.
-        * intros id pp Hin. apply (earlier_not_below acc it (pp_path pp) Hspec). apply (g_pipes st acc G id pp Hin).
-        * intros _. rewrite accpaths_app. apply in_or_app. right. left. reflexivity. }
-  destruct (apply_change_inv idx 0 (st_path s) s st2 (acc ++ [it]) G2 Hpre) as (G3 & (F1 & F2 & F3 & _) & Hpost).
-  set (st3 := apply_change c idx 0 (st_path s) s st2) in *.
-  split; [|rewrite F3; reflexivity]. split; [exact G3|].
-  intros L3. destruct (Hpost L3) as (L2 & P1 & P2 & P3).
-  assert (L0 : live st = true) by exact L2. destruct (A L0) as [A1 A2 A3].
-  assert (Hkeep : forall q, In q (accpaths acc) -> safe (r_fs st) D (comps q) -> safe (r_fs st3) D (comps q)).
-  { intros q Hq Hs. apply (proj1 (P2 (comps q) ltac:(apply (earlier_not_below acc it q Hspec Hq)) ltac:(apply (In_accpaths_clean acc q (g_acc st acc G) Hq)))). exact Hs. }
-  constructor.
-  - exact P1.
-  - intros ds l Hin. rewrite F1 in Hin. cbn [r_vstk st2 st1 set_diff set_valid] in Hin.
-    assert (Hin' : In (pcomps ds, l) (map ce v')).
-    { apply in_map_iff. exists (ds, l). split; auto. }
-    destruct (Hshape _ _ Hin') as [(Hp & l' & Hl')|(E1 & E2 & _)].
-    + apply In_map_ce in Hl'. destruct Hl' as (ds' & Hin2 & Eds).
-      refine (proj1 (P2 (pcomps ds) _ _) _).
-      * rewrite Ecs. apply is_prefix_not_longer. exact Hp.
-      * intros t Ht Hint. apply (Hcl t Ht). apply removelast_In. apply (prefix_In _ _ t Hp Hint).
-      * rewrite <- Eds. apply (A2 ds' l' Hin2).
-    + rewrite E1. apply P3; [discriminate|]. unfold solid. cbn [isdir citem_of it item_of visdir] in E2.
-      unfold st_is_dir in E2. rewrite E2. reflexivity.
-  - intros q Hq. rewrite F2 in Hq. cbn [r_seen st2 st1 set_diff set_valid] in Hq.
-    destruct (Hseen' q Hq) as [H|[-> Hsol]].
-    + apply Hkeep; [apply (g_seen st acc G q H)|apply (A3 q H)].
-    + apply P3; [discriminate|exact Hsol].
+  intros HR Hin Hok Hpre Hrej. destruct (pcomps ds) as [|a r] eqn:E; [left; reflexivity|right].
+  unfold R in HR. rewrite Forall_forall in HR. pose proof (HR _ Hin) as Hd. cbn [fst] in Hd.
+  destruct Hd as [Hd|Hd]; [subst ds; discriminate|].
+  assert (Hokd : ok_path ds = true) by (rewrite <- (joinc_comps ds); apply okc_ok_path; exact Hd).
+  destruct (f_rej fl ds) eqn:Er; [|reflexivity]. exfalso.
+  assert (E2 : pcomps ds = comps ds) by (destruct ds; [discriminate|reflexivity]).
+  rewrite <- E, E2 in Hpre. rewrite (Hclosed ds p Hokd Hok Er Hpre) in Hrej. discriminate.
 Qed.
 
+(* a transferred hard link names a path the filter lets pass *)
+Definition link_ok (s : stat) : Prop :=
+  hardlink_branch s = true -> f_rej fl (st_path s) = false -> f_rej fl (st_linkname s) = false.
 
 (* the same for an entry both validators have accepted, whatever the bookkeeping of ids: the
    metadata branch of the receive loop (Model/RecvMeta.v) hands entries to the walker this way *)
 Lemma feed_merge idx s st acc v' seen' files next :
-  MInv st acc -> clean_path (st_path s) ->
+  MInv st acc -> clean_path (st_path s) -> link_ok s ->
   vstep (r_vstk st) (item_of s) = Some v' -> hl_step (r_seen st) s = Some seen' ->
   let st1 := set_valid st v' seen' files next in
   GBase st1 (acc ++ [item_of s]) /\ r_old st1 = []
-  /\ MInv (diff_feed c idx s (r_old st1) st1) (acc ++ [item_of s]).
+  /\ MInv (diff_feed fl c idx s (r_old st1) st1) (acc ++ [item_of s]).
 Proof.
-  intros [[G A] Hold] Hcl Ev Eh. cbv zeta.
+  intros [[G A] Hold] Hcl Hlk Ev Eh. cbv zeta.
   set (it := item_of s) in *.
   pose proof (vstep_ok_path _ _ _ Ev) as Hok. change (vpath it) with (st_path s) in Hok.
   pose proof (vstep_refines (r_vstk st) it (g_R st acc G) Hok) as Hr. rewrite Ev in Hr. destruct Hr as [Hcv HR'].
@@ -800,21 +814,27 @@ Proof.
     - repeat split.
     - apply G1. }
   assert (Ecs : comps (st_path s) = removelast (comps (st_path s)) ++ [last (comps (st_path s)) []]) by (apply split_comps; auto).
-  assert (Hpre : live st2 = true -> change_pre 0 st2 (st_path s) s (acc ++ [it])).
-  { intros L. assert (L0 : live st = true) by exact L. destruct (A L0) as [A1 A2 A3].
+  assert (Hpre : live st2 = true -> f_rej fl (st_path s) = false -> change_pre 0 st2 (st_path s) s (acc ++ [it])).
+  { intros L Hrej. assert (L0 : live st = true) by exact L. destruct (A L0) as [A1 A2 A3].
     unfold change_pre. cbn [r_fs st2 st1 set_diff set_valid r_pipes].
     split; [exact Hok|]. split; [exact Hcl|]. split.
     - destruct Hparent as [l Hl]. apply In_map_ce in Hl. destruct Hl as (ds & Hin & Eds).
-      rewrite <- Eds. apply (A2 ds l Hin).
+      rewrite <- Eds.
+      destruct (dir_accepted (r_vstk st) ds l (st_path s) (g_R st acc G) Hin Hok) as [E|E]; auto.
+      + rewrite Eds. exists [last (comps (st_path s)) []]. rewrite <- Ecs. reflexivity.
+      + rewrite E. exact I.
+      + apply (A2 ds l Hin E).
     - split; [exact A1|]. split.
       + intros _ Hhb. pose proof (Hlinkseen Hhb) as Hin.
         destruct (In_accpaths_clean acc _ (g_acc st acc G) (g_seen st acc G _ Hin)) as [Hokl _].
-        split; auto. pose proof (A3 _ Hin) as Hs. rewrite (split_comps _ Hokl) in Hs. apply safe_prefix in Hs. exact Hs.
+        split; auto. pose proof (A3 _ Hin (Hlk Hhb Hrej)) as Hs. rewrite (split_comps _ Hokl) in Hs. apply safe_prefix in Hs. exact Hs.
       + split.
         * intros id pp Hin. apply (earlier_not_below acc it (pp_path pp) Hspec). apply (g_pipes st acc G id pp Hin).
         * intros _. rewrite accpaths_app. apply in_or_app. right. left. reflexivity. }
-  destruct (apply_change_inv idx 0 (st_path s) s st2 (acc ++ [it]) G2 Hpre) as (G3 & (F1 & F2 & F3 & _) & Hpost).
-  set (st3 := apply_change c idx 0 (st_path s) s st2) in *.
+  assert (Hfree0 : live st2 = true -> forall j t, reach (r_fs st2) j -> tmpname t -> blookup t (ents (r_fs st2) j) = None).
+  { intros L. assert (L0 : live st = true) by exact L. destruct (A L0) as [A1 _ _]. exact A1. }
+  destruct (apply_change_inv idx 0 (st_path s) s st2 (acc ++ [it]) G2 Hpre Hfree0) as (G3 & (F1 & F2 & F3 & _) & Hpost).
+  set (st3 := apply_change fl c idx 0 (st_path s) s st2) in *.
   split; [|rewrite F3; reflexivity]. split; [exact G3|].
   intros L3. destruct (Hpost L3) as (L2 & P1 & P2 & P3).
   assert (L0 : live st = true) by exact L2. destruct (A L0) as [A1 A2 A3].
@@ -822,21 +842,53 @@ Proof.
   { intros q Hq Hs. apply (proj1 (P2 (comps q) ltac:(apply (earlier_not_below acc it q Hspec Hq)) ltac:(apply (In_accpaths_clean acc q (g_acc st acc G) Hq)))). exact Hs. }
   constructor.
   - exact P1.
-  - intros ds l Hin. rewrite F1 in Hin. cbn [r_vstk st2 st1 set_diff set_valid] in Hin.
+  - intros ds l Hin Hrj. rewrite F1 in Hin. cbn [r_vstk st2 st1 set_diff set_valid] in Hin.
     assert (Hin' : In (pcomps ds, l) (map ce v')).
     { apply in_map_iff. exists (ds, l). split; auto. }
     destruct (Hshape _ _ Hin') as [(Hp & l' & Hl')|(E1 & E2 & _)].
     + apply In_map_ce in Hl'. destruct Hl' as (ds' & Hin2 & Eds).
+      apply pcomps_inj_ok in Eds. subst ds'.
       refine (proj1 (P2 (pcomps ds) _ _) _).
       * rewrite Ecs. apply is_prefix_not_longer. exact Hp.
       * intros t Ht Hint. apply (Hcl t Ht). apply removelast_In. apply (prefix_In _ _ t Hp Hint).
-      * rewrite <- Eds. apply (A2 ds' l' Hin2).
-    + rewrite E1. apply P3; [discriminate|]. unfold solid. cbn [isdir citem_of it item_of visdir] in E2.
+      * apply (A2 ds l' Hin2 Hrj).
+    + rewrite E1.
+      assert (Eds : ds = st_path s).
+      { apply pcomps_inj_ok. rewrite E1. symmetry. apply pcomps_nonempty. intro E0. rewrite E0 in Hok. discriminate. }
+      apply P3; [discriminate| |rewrite <- Eds; exact Hrj]. unfold solid. cbn [isdir citem_of it item_of visdir] in E2.
       unfold st_is_dir in E2. rewrite E2. reflexivity.
-  - intros q Hq. rewrite F2 in Hq. cbn [r_seen st2 st1 set_diff set_valid] in Hq.
+  - intros q Hq Hrj. rewrite F2 in Hq. cbn [r_seen st2 st1 set_diff set_valid] in Hq.
     destruct (Hseen' q Hq) as [H|[-> Hsol]].
-    + apply Hkeep; [apply (g_seen st acc G q H)|apply (A3 q H)].
-    + apply P3; [discriminate|exact Hsol].
+    + apply Hkeep; [apply (g_seen st acc G q H)|apply (A3 q H Hrj)].
+    + apply P3; [discriminate|exact Hsol|exact Hrj].
+Qed.
+
+Lemma recv_stat_inv idx s st acc :
+  MInv st acc -> clean_path (st_path s) -> link_ok s -> exists acc', MInv (recv_stat fl c idx s st) acc'.
+Proof.
+  intros M Hcl Hlk. pose proof M as [[G A] Hold]. unfold recv_stat.
+  set (files := if mode_is_regular (st_mode s) then bset (st_path s) (r_next st) (r_files st) else r_files st).
+  set (it := item_of s).
+  destruct (vstep (r_vstk st) it) as [v'|] eqn:Ev.
+  2:{ exists acc. apply (MInv_stop st); [|simpl; exact Hold|discriminate].
+      apply (GBase_quiet st _ acc b0 G); try (unfold b0; lia); simpl.
+      - apply step_same; [apply (g_wf st acc G)|apply (g_next st acc G)].
+      - repeat split.
+      - apply G. }
+  pose proof (vstep_ok_path _ _ _ Ev) as Hok. change (vpath it) with (st_path s) in Hok.
+  pose proof (vstep_refines (r_vstk st) it (g_R st acc G) Hok) as Hr. rewrite Ev in Hr. destruct Hr as [Hcv HR'].
+  destruct (cvstep_sound _ _ _ _ (g_vinv st acc G) (okitem_names it Hok) Hcv) as [Hspec HI'].
+  change [citem_of it] with (map citem_of [it]) in HI'. rewrite <- map_app in HI'.
+  exists (acc ++ [it]).
+  destruct (hl_step (r_seen st) s) as [seen'|] eqn:Eh.
+  2:{ apply (MInv_stop st); [|simpl; exact Hold|discriminate].
+      apply (GBase_ext st _ acc it v'); simpl; auto. }
+  destruct (feed_merge idx s st acc v' seen' files (r_next st + 1) M Hcl Hlk Ev Eh) as (G1 & Eold & M1).
+  set (st1 := set_valid (set_valid st (r_vstk st) (r_seen st) files (r_next st + 1)) v' seen' files (r_next st + 1)).
+  change (set_valid st v' seen' files (r_next st + 1)) with st1 in G1, Eold, M1.
+  destruct (is_dead st1 && negb (r_closed st1)); [apply (MInv_stop st1); [exact G1|exact Eold|discriminate]|].
+  destruct (r_closed st1); [apply (MInv_stop st1); [exact G1|exact Eold|discriminate]|].
+  exact M1.
 Qed.
 
 (* ---------------- the loop ---------------- *)
@@ -868,10 +920,10 @@ Proof.
 Qed.
 
 Definition clean_packet (pk : packet) : Prop :=
-  match pk with PStat (Some s) => clean_path (st_path s) | _ => True end.
+  match pk with PStat (Some s) => clean_path (st_path s) /\ link_ok s | _ => True end.
 
 Lemma recv_packet_inv idx pk st acc :
-  MInv st acc -> clean_packet pk -> exists acc', MInv (recv_packet c dl idx pk st) acc'.
+  MInv st acc -> clean_packet pk -> exists acc', MInv (recv_packet fl c dl idx pk st) acc'.
 Proof.
   intros M Hc. unfold recv_packet. destruct (negb (running st)); [exists acc; exact M|].
   assert (X : exists acc', MInv (match pk with
@@ -881,12 +933,12 @@ Proof.
                                  | PStat None =>
                                    if r_closed st then set_out st (Panicked idx)
                                    else if is_dead st then set_out st (Failed idx)
-                                   else diff_flush c idx (r_old st) (set_flags st true (r_waited st))
-                                 | PStat (Some s) => recv_stat c idx s st
+                                   else diff_flush fl c idx (r_old st) (set_flags st true (r_waited st))
+                                 | PStat (Some s) => recv_stat fl c idx s st
                                  | PData id d => recv_data c idx id d st
                                  end) acc').
   { destruct M as [[G A] Ho]. destruct pk as [[s|]|id d| | |].
-    - apply (recv_stat_inv idx s st acc); [split; [split|]; auto|exact Hc].
+    - apply (recv_stat_inv idx s st acc); [split; [split|]; auto|exact (proj1 Hc)|exact (proj2 Hc)].
     - exists acc. destruct (r_closed st); [apply (MInv_stop st); auto; discriminate|].
       destruct (is_dead st); [apply (MInv_stop st); auto; discriminate|].
       rewrite Ho. cbn [diff_flush]. split; [|reflexivity].
@@ -904,7 +956,7 @@ Qed.
 
 (* packets other than a non-empty STAT accept nothing new *)
 Lemma recv_packet_inv_other idx pk st acc :
-  MInv st acc -> (forall s, pk <> PStat (Some s)) -> MInv (recv_packet c dl idx pk st) acc.
+  MInv st acc -> (forall s, pk <> PStat (Some s)) -> MInv (recv_packet fl c dl idx pk st) acc.
 Proof.
   intros M Hpk. unfold recv_packet. destruct (negb (running st)); [exact M|].
   assert (X : MInv (match pk with
@@ -914,8 +966,8 @@ Proof.
                     | PStat None =>
                       if r_closed st then set_out st (Panicked idx)
                       else if is_dead st then set_out st (Failed idx)
-                      else diff_flush c idx (r_old st) (set_flags st true (r_waited st))
-                    | PStat (Some s) => recv_stat c idx s st
+                      else diff_flush fl c idx (r_old st) (set_flags st true (r_waited st))
+                    | PStat (Some s) => recv_stat fl c idx s st
                     | PData id d => recv_data c idx id d st
                     end) acc).
   { destruct M as [[G A] Ho]. destruct pk as [[s|]|id d| | |].
@@ -947,7 +999,7 @@ Proof.
 Qed.
 
 Lemma recv_loop_inv : forall pks idx st acc,
-  MInv st acc -> Forall clean_packet pks -> exists acc', MInv (recv_loop c dl idx pks st) acc'.
+  MInv st acc -> Forall clean_packet pks -> exists acc', MInv (recv_loop fl c dl idx pks st) acc'.
 Proof.
   induction pks as [|pk pks IH]; intros idx st acc M Hc; simpl; [exists acc; exact M|].
   inversion Hc; subst. destruct (recv_packet_inv idx pk st acc M H1) as [acc1 M1].
@@ -970,15 +1022,15 @@ Proof.
     + intros t Ht. right. exact Ht.
   - intros _. constructor; simpl.
     + exact Hu.
-    + intros d l [E|[]]. inversion E; subst. exact I.
+    + intros d l [E|[]] _. inversion E; subst. exact I.
     + intros q [].
 Qed.
 
 Theorem recv_merge_step pks budget :
   tmp_unused -> Forall clean_packet pks ->
-  step TAll b0 f0 (r_fs (recv_run f0 root D dl true tmps0 pks budget)).
+  step TAll b0 f0 (r_fs (recv_run_f fl f0 root D dl true tmps0 pks budget)).
 Proof.
-  intros Hu Hc. unfold recv_run.
+  intros Hu Hc. unfold recv_run_f.
   destruct (recv_loop_inv pks 0 _ [] (MInv_init budget Hu) Hc) as [acc [[G _] _]]. apply G.
 Qed.
 
